@@ -159,7 +159,7 @@ def c02(case, trace, settled=False):
                 started += 1
         if t["state"] != state:
             yield ("state_chain_last", {"call": k}, "reported state differs from last announced state", i)
-        if hist_len is not None and k != "load":
+        if hist_len is not None and k not in ("load", "sethistory"):
             if len(t["history"]) != hist_len + started:
                 yield ("started_feeds_history", {"call": k}, "history did not grow by one entry per started event", i)
             else:
@@ -218,6 +218,21 @@ def c03(case, trace, settled=False):
             yield ("no_consume_frame", {"call": k}, "playback operation altered the tracklist with consume off", i)
         for hit in _retry_same_track(case, trace, i):
             yield ("skips_only_unplayable", hit[1], hit[2], hit[3])
+        if settled and k == "next" and i > 0 and not t["exc"] and not t["diverged"]:
+            # without repeat next() always moves on: to a following playable entry, or it stops
+            # when none is left; it never leaves the old entry playing (unless the shuffle order
+            # itself contains that entry again, e.g. after a tracklist edit)
+            q = trace[i - 1]
+            old = q["current"]
+            if q["queue_len"] == 0 and old is not None and old in [x for x, _ in q["tl"]] and q["pending"] is None \
+                    and q["state"] != "stopped" and not q["modes"][2] and old not in q.get("shuffled", []):
+                j2 = i
+                while j2 + 1 < len(trace) and trace[j2 + 1]["op"][0] == "deliver":
+                    j2 += 1
+                a2 = trace[j2]
+                if a2["queue_len"] == 0 and not a2["diverged"] and a2["current"] == old and a2["state"] != "stopped":
+                    yield ("next_moves_on", {"call": "next", "consume": bool(q["modes"][0]), "random": bool(q["modes"][1])},
+                           "next() without repeat left the old entry current and not stopped", j2)
         pair = {"next": "getnext", "previous": "getprev", "atf": "geteot"}
         if settled and k in pair and i >= 2 and trace[i - 1]["op"][0] == pair[k] and trace[i - 1]["queue_len"] == 0:
             p = trace[i - 1]
@@ -301,11 +316,25 @@ def c04(case, trace, slope=10, offset=40):
 
 def c05(case, trace):
     last_attempt = {}
+    ever = {}          # tlid -> track for every entry ever seen in the tracklist
+    prov = {}          # tlid -> was the change that made it the pending entry accepted?
+    prev_pending = None
     for i, t in enumerate(trace):
         k = t["op"][0]
         # tl before op, to map tlid -> track also for entries consumed during the op
         known = dict(_prev_tl(trace, i))
         known.update(dict(t["tl"]))
+        ever.update(known)
+        if k == "load":
+            prov, prev_pending = {}, None
+        if t["pending"] is not None and (t["pending"] != prev_pending or t["attempts"]):
+            ptrk = ever.get(t["pending"])
+            outcomes = [ok for trk, ok in t["attempts"] if trk == ptrk]
+            if outcomes and t["pending"] != prev_pending:
+                prov[t["pending"]] = outcomes[-1]
+            elif outcomes and outcomes[-1]:
+                prov[t["pending"]] = True
+        prev_pending = t["pending"]
         failed_in_op = [trk for trk, ok in t["attempts"] if not ok]
         # interleave: attempts and events are logged separately; started events in one op come
         # after the attempts of the same op in the core's control flow, except across a
@@ -318,9 +347,12 @@ def c05(case, trace):
                 dl = t.get("delivered")
                 if k == "deliver" and dl is not None and dl[0] == "stream_changed":
                     # legitimate when the reported stream is the announced track's own URI (set_uri is
-                    # only reached through an accepted change_track) or the latest change to that
-                    # track was accepted (an older stream_changed may confirm a newer accepted switch)
-                    if (dl[1] is None or int(dl[1].split(":t")[1]) != trk) and last_attempt.get(trk) is not True:
+                    # only reached through an accepted change_track), or the latest change to that
+                    # track was accepted (an older stream_changed may confirm a newer accepted switch),
+                    # or the change that made this entry the pending one was accepted (a later,
+                    # refused end-of-track attempt on the same entry does not take that back)
+                    if (dl[1] is None or int(dl[1].split(":t")[1]) != trk) and last_attempt.get(trk) is not True \
+                            and prov.get(kw["tl_track"].tlid) is not True:
                         yield ("started_only_if_accepted", {"call": k},
                                "track_playback_started for a track the audio layer did not switch to "
                                "(its change attempt failed)", i)
@@ -347,7 +379,12 @@ def c05(case, trace):
             # consume that entry leaves the tracklist (checked for tracks with a single entry)
             before = _prev_tl(trace, i)
             after_trks = [trk for _, trk in t["tl"]]
+            # entries that are current/pending but no longer in the tracklist are candidates too
+            ghosts = [ever.get(x) for x in (trace[i - 1]["current"], trace[i - 1]["pending"])
+                      if x is not None and x not in [y for y, _ in before]]
             for trk in failed_in_op:
+                if trk in ghosts:
+                    continue
                 if [x for _, x in before].count(trk) == 1 and trk in after_trks:
                     yield ("consume_drops_refused", {"call": k, "single_entry": True},
                            f"track {trk} was refused during {k} under consume but is still in the tracklist", i)
@@ -427,7 +464,10 @@ def c10(case, trace):
         key = {"cov": "all" if all(cov.values()) else "subset"}
         failed_restore = any(ok is False for r in trace[i: j + 1] for _, ok in r["attempts"])
         if cov["tracklist"]:
-            if a["tl"] != s["tl"] and not (failed_restore and s["modes"][0]):
+            consuming = cov["mode"] and s["modes"][0]   # playback that goes on after the restore consumes entries
+            if t["tl"] != s["tl"] and not (failed_restore and s["modes"][0]):
+                yield ("restore_tracklist", key, "tracklist (tracks, order, tlids) not restored", i)
+            elif a["tl"] != s["tl"] and not consuming:
                 yield ("restore_tracklist", key, "tracklist (tracks, order, tlids) not restored", j)
         elif a["tl"]:
             yield ("coverage_default", {"section": "tracklist"}, "tracklist restored although not selected", j)
